@@ -30,6 +30,7 @@ type memConn struct {
 	tripped   bool
 	written   int
 	writes    int
+	timeout   bool // the failure is a deadline error (os.ErrDeadlineExceeded) rather than a hard one
 }
 
 var errInjected = errors.New("injected write failure")
@@ -46,6 +47,9 @@ func (m *memConn) Write(p []byte) (int, error) {
 		}
 		if !m.shortOnly {
 			err = errInjected
+			if m.timeout {
+				err = os.ErrDeadlineExceeded
+			}
 		}
 	}
 	m.wire = append(m.wire, p[:n]...)
@@ -176,7 +180,9 @@ func TestVerifC08Conn(t *testing.T) {
 		}
 	}
 	for _, k := range positions {
-		for _, mode := range []int{0, 1, 2, 3} {
+		// mode bits: 1 short write instead of an error, 2 transient, 4 the error is a timeout;
+		// 8/16/24: between two writes the caller extends the write / both / the read deadline
+		for _, mode := range []int{0, 1, 2, 3, 4, 6, 6 + 8, 6 + 16, 6 + 24, 2 + 8, 2 + 16} {
 			short := mode&1 != 0
 			transient := mode&2 != 0
 			for _, pat := range [][]int{{100, 100}, {40000, 10}, {32768, 32768, 5}, {70000, 70000}, {1, 1, 1}, {98304 + 10, 3}} {
@@ -184,8 +190,18 @@ func TestVerifC08Conn(t *testing.T) {
 					continue
 				}
 				res.Add("evaluations", 1)
-				wire := &memConn{failAt: k, shortOnly: short, transient: transient}
+				wire := &memConn{failAt: k, shortOnly: short, transient: transient, timeout: mode&4 != 0}
 				w := &Conn{conn: wire, enc: mkCipher(), dec: mkCipher()}
+				between := func() {
+					switch mode & 24 {
+					case 8:
+						w.SetWriteDeadline(time.Now().Add(time.Minute))
+					case 16:
+						w.SetDeadline(time.Now().Add(time.Minute))
+					case 24:
+						w.SetReadDeadline(time.Now().Add(time.Minute))
+					}
+				}
 				var all []byte
 				var firstErr error
 				acked := 0
@@ -193,6 +209,9 @@ func TestVerifC08Conn(t *testing.T) {
 					p := plain(n, byte(i))
 					all = append(all, p...)
 					before := wire.written
+					if i > 0 {
+						between()
+					}
 					kk, err := w.Write(p)
 					if firstErr != nil {
 						// every later write must fail with the same error and send nothing
